@@ -33,6 +33,43 @@ static bool limiter_recipe(std::string& why) {
     }
     return false;
 }
+// ---- a message that the limiter turned away while a put was in flight must be pulled once that put is settled (white-box only to wait for the edge flip) ----
+#include <chrono>
+#include <thread>
+struct settle_sink : public flow::receiver<int> {
+    flow::graph& g; flow::limiter_node<int>* lim = nullptr; flow::queue_node<int>* q = nullptr; std::vector<int> got; bool fired = false, reject = false, flipped = false;
+    explicit settle_sink(flow::graph& gr) : g(gr) {}
+    graph_task* try_put_task(const int& v) override {
+        if (v == 1000 && !fired) {
+            fired = true;
+            q->try_put(7);                    // the queue offers 7 while the put of 1000 is in flight: the limiter turns it away, the queue keeps it and flips its edge to pull mode
+            for (int i = 0; i < 3000 && lim->my_predecessors.empty(); ++i) std::this_thread::sleep_for(std::chrono::milliseconds(1));
+            flipped = !lim->my_predecessors.empty();
+            if (reject) return nullptr;       // variant A: the in-flight put fails (this receiver refuses pull mode, so it stays a successor)
+            got.push_back(v);
+            lim->decrementer().try_put(flow::continue_msg());   // variant B: the put succeeds and its acknowledgement arrives before the put has returned
+            return const_cast<graph_task*>(SUCCESSFULLY_ENQUEUED);
+        }
+        got.push_back(v);
+        return const_cast<graph_task*>(SUCCESSFULLY_ENQUEUED);
+    }
+    flow::graph& graph_reference() const override { return g; }
+};
+static bool limiter_settle_recipe(std::string& why, bool reject) {
+    flow::graph g; flow::queue_node<int> q(g); flow::limiter_node<int> lim(g, 1); settle_sink sink(g); sink.lim = &lim; sink.q = &q; sink.reject = reject;
+    flow::make_edge(q, lim); flow::make_edge(lim, sink);
+    lim.try_put(1000);
+    g.wait_for_all();
+    bool seen7 = false; for (int v : sink.got) seen7 = seen7 || v == 7;
+    int v = -1; bool left = q.try_get(v);
+    if (sink.flipped && !seen7 && left && v == 7 && lim.my_count + lim.my_tries < lim.my_threshold) {
+        why = std::string("queue_node -> limiter_node(threshold 1) -> accepting receiver; a direct put into the limiter is in flight; meanwhile the queue offers 7, is turned away and flips its edge to pull mode; the in-flight put then ")
+              + (reject ? "is rejected by the receiver" : "succeeds and its decrement arrives before the put returns") + ": after wait_for_all the limiter is open (count " + std::to_string(lim.my_count) + ", tries "
+              + std::to_string(lim.my_tries) + "), its successor accepts, and 7 is still in the queue - never offered again";
+        return true;
+    }
+    return false;
+}
 static bool sequencer_run(std::string& why, const std::vector<size_t>& in, size_t expect_n, const char* note) {
     flow::graph g; std::vector<size_t> out;
     flow::sequencer_node<size_t> seq(g, [](const size_t& v) { return v; });
@@ -58,9 +95,116 @@ static bool sequencer_recipe(std::string& why, bool tagmax) {
     }
     return false;
 }
+// ---- join_node recipes (public API only) ----
+#include <thread>
+#include <tuple>
+#include <utility>
+#include <map>
+typedef std::pair<int, int> kmsg;   // (key, payload)
+#include <cstdlib>
+// a join that never retires its inputs emits the same tuple for ever: report that instead of hanging
+static void runaway(const char* cls, size_t n, size_t want) {
+    if (n > 20 * want + 50) { std::printf("REPRODUCED class=%s more than %zu tuples emitted from %zu messages per port (the same input messages are forwarded again and again)\n", cls, n - 1, want); std::fflush(stdout); std::_Exit(0); }
+}
+static bool key_duplicate_recipe(std::string& why) {
+    flow::graph g; std::vector<std::tuple<kmsg, kmsg>> out;
+    flow::join_node<std::tuple<kmsg, kmsg>, flow::key_matching<int>> j(g, [](const kmsg& m) { return m.first; }, [](const kmsg& m) { return m.first; });
+    flow::function_node<std::tuple<kmsg, kmsg>, int> sink(g, 1, [&](const std::tuple<kmsg, kmsg>& t) { out.push_back(t); return 0; });
+    flow::make_edge(j, sink);
+    bool a = flow::input_port<0>(j).try_put(kmsg(1, 10)), b = flow::input_port<0>(j).try_put(kmsg(1, 20)), c = flow::input_port<1>(j).try_put(kmsg(1, 99));
+    g.wait_for_all();
+    if (a && !b && c && out.size() == 1 && std::get<0>(out[0]).second != 10) {
+        why = "join_node<tuple<pair,pair>, key_matching<int>>: port 0 try_put (key 1, payload 10) -> accepted, try_put (key 1, payload 20) -> rejected, port 1 try_put (key 1, payload 99): the tuple carries payload "
+              + std::to_string(std::get<0>(out[0]).second) + " at port 0 -- the accepted message was overwritten by the rejected one (accepted message lost, rejected message used)";
+        return true;
+    }
+    return false;
+}
+// a successor that records what it is offered at once (a function_node would park the body task in the forwarder's hands until the forwarder returns)
+template <typename T> struct collect_sink : public flow::receiver<T> {
+    flow::graph& g; std::vector<T>& out; const char* cls; size_t want;
+    collect_sink(flow::graph& gr, std::vector<T>& o, const char* c, size_t w) : g(gr), out(o), cls(c), want(w) {}
+    graph_task* try_put_task(const T& v) override { out.push_back(v); runaway(cls, out.size(), want); return const_cast<graph_task*>(SUCCESSFULLY_ENQUEUED); }
+    flow::graph& graph_reference() const override { return g; }
+};
+template <typename JP> struct join_run {
+    // feeds K messages 0..K-1 to each of the two ports in the stated pattern and returns the tuples in emission order
+    static std::vector<std::tuple<int, int>> run(int K, int pattern, bool threads) {
+        flow::graph g; std::vector<std::tuple<int, int>> out;
+        flow::join_node<std::tuple<int, int>, JP> j(g);
+        collect_sink<std::tuple<int, int>> sink(g, out, "join-queueing", (size_t)K);
+        flow::make_edge(j, sink);
+        auto feed = [&](int port, int i) { if (port == 0) flow::input_port<0>(j).try_put(i); else flow::input_port<1>(j).try_put(i); };
+        if (threads) { std::thread t0([&] { for (int i = 0; i < K; ++i) feed(0, i); }), t1([&] { for (int i = 0; i < K; ++i) feed(1, i); }); t0.join(); t1.join(); }
+        else if (pattern == 0) { for (int i = 0; i < K; ++i) feed(0, i); for (int i = 0; i < K; ++i) feed(1, i); }
+        else if (pattern == 1) { for (int i = 0; i < K; ++i) feed(1, i); for (int i = 0; i < K; ++i) feed(0, i); }
+        else if (pattern == 2) { for (int i = 0; i < K; ++i) { feed(0, i); feed(1, i); } }
+        else { for (int i = 0; i < K; i += 3) { for (int d = 0; d < 3 && i + d < K; ++d) feed(1, i + d); for (int d = 0; d < 3 && i + d < K; ++d) feed(0, i + d); } }
+        g.wait_for_all();
+        return out;
+    }
+};
+static bool queueing_recipe(std::string& why) {
+    for (int pass = 0; pass < 6; ++pass) for (int K : {1, 2, 5, 9, 40}) {
+        bool thr = pass >= 4; auto out = join_run<flow::queueing>::run(thr ? 3000 : K, pass, thr); size_t want = thr ? 3000 : K;
+        bool ok = out.size() == want;
+        for (size_t i = 0; ok && i < out.size(); ++i) ok = std::get<0>(out[i]) == (int)i && std::get<1>(out[i]) == (int)i;
+        if (!ok) { why = "join_node<tuple<int,int>, queueing>, " + std::to_string(want) + " messages 0.." + std::to_string(want - 1) + " per port (feeding pattern " + std::to_string(pass) + "): " + std::to_string(out.size()) + " tuples emitted";
+                   for (size_t i = 0; i < out.size() && i < 6; ++i) why += " (" + std::to_string(std::get<0>(out[i])) + "," + std::to_string(std::get<1>(out[i])) + ")";
+                   why += " -- expected the i-th tuple to be (i,i)"; return true; }
+    }
+    return false;
+}
+static bool reserving_recipe(std::string& why) {
+    for (int K : {1, 3, 8, 50}) for (int pattern = 0; pattern < 3; ++pattern) {
+        flow::graph g; std::vector<std::tuple<int, int>> out;
+        flow::queue_node<int> q0(g), q1(g);
+        flow::join_node<std::tuple<int, int>, flow::reserving> j(g);
+        collect_sink<std::tuple<int, int>> sink(g, out, "join-reserving", (size_t)K);
+        flow::make_edge(q0, flow::input_port<0>(j)); flow::make_edge(q1, flow::input_port<1>(j)); flow::make_edge(j, sink);
+        if (pattern == 0) { for (int i = 0; i < K; ++i) q0.try_put(i); for (int i = 0; i < K; ++i) q1.try_put(i); }
+        else if (pattern == 1) { for (int i = 0; i < K; ++i) { q1.try_put(i); q0.try_put(i); } }
+        else { for (int i = 0; i < K; ++i) q1.try_put(i); g.wait_for_all(); for (int i = 0; i < K; ++i) q0.try_put(i); }
+        g.wait_for_all();
+        int left0 = 0, left1 = 0, v; while (q0.try_get(v)) ++left0; while (q1.try_get(v)) ++left1;
+        bool ok = out.size() == (size_t)K && left0 == 0 && left1 == 0;
+        for (size_t i = 0; ok && i < out.size(); ++i) ok = std::get<0>(out[i]) == (int)i && std::get<1>(out[i]) == (int)i;
+        if (!ok) { why = "two queue_nodes with " + std::to_string(K) + " messages each -> join_node<tuple<int,int>, reserving> (pattern " + std::to_string(pattern) + "): " + std::to_string(out.size()) + " tuples, "
+                   + std::to_string(left0) + "/" + std::to_string(left1) + " messages left in the queues -- expected " + std::to_string(K) + " tuples (i,i) and empty queues"; return true; }
+    }
+    return false;
+}
+static bool key_matching_recipe(std::string& why) {
+    for (int K : {1, 2, 7, 33}) for (int pattern = 0; pattern < 3; ++pattern) {
+        flow::graph g; std::vector<std::tuple<kmsg, kmsg>> out;
+        flow::join_node<std::tuple<kmsg, kmsg>, flow::key_matching<int>> j(g, [](const kmsg& m) { return m.first; }, [](const kmsg& m) { return m.first; });
+        collect_sink<std::tuple<kmsg, kmsg>> sink(g, out, "join-key-matching", (size_t)K);
+        flow::make_edge(j, sink);
+        for (int i = 0; i < K; ++i) flow::input_port<0>(j).try_put(kmsg(pattern == 1 ? K - 1 - i : i, 1000 + (pattern == 1 ? K - 1 - i : i)));
+        for (int i = 0; i < K; ++i) { int k = pattern == 2 ? (i * 7 + 3) % K : i; if (pattern == 2 && K % 7 == 0) k = i; flow::input_port<1>(j).try_put(kmsg(k, 2000 + k)); }
+        g.wait_for_all();
+        std::map<int, int> seen; bool ok = out.size() == (size_t)K;
+        for (auto& t : out) { ok = ok && std::get<0>(t).first == std::get<1>(t).first && std::get<0>(t).second == 1000 + std::get<0>(t).first && std::get<1>(t).second == 2000 + std::get<1>(t).first; ++seen[std::get<0>(t).first]; }
+        for (auto& kv : seen) ok = ok && kv.second == 1;
+        if (!ok) { why = "join_node<tuple<pair,pair>, key_matching<int>> fed keys 0.." + std::to_string(K - 1) + " once per port (pattern " + std::to_string(pattern) + "): " + std::to_string(out.size()) + " tuples";
+                   for (size_t i = 0; i < out.size() && i < 5; ++i) why += " [" + std::to_string(std::get<0>(out[i]).first) + ":" + std::to_string(std::get<0>(out[i]).second) + "|" + std::to_string(std::get<1>(out[i]).first) + ":" + std::to_string(std::get<1>(out[i]).second) + "]";
+                   why += " -- expected one tuple per key whose components carry that key"; return true; }
+    }
+    return false;
+}
 int main(int argc, char** argv) {
     std::string job = argc > 1 ? argv[1] : "", why;
-    if (job.rfind("limiter", 0) == 0) { if (limiter_recipe(why)) { std::printf("REPRODUCED class=limiter-threshold %s\n", why.c_str()); return 0; } }
+    if (job == "limiter.try_put.early_decrement") { if (limiter_settle_recipe(why, false)) { std::printf("REPRODUCED class=limiter-early-decrement-strands-predecessor %s\n", why.c_str()); return 0; } }
+    else if (job.rfind("limiter", 0) == 0) { if (limiter_settle_recipe(why, true)) { std::printf("REPRODUCED class=limiter-withdrawn-attempt-strands-predecessor %s\n", why.c_str()); return 0; }
+        if (limiter_recipe(why)) { std::printf("REPRODUCED class=limiter-threshold %s\n", why.c_str()); return 0; } }
+    else if (job == "join.kport.try_put.duplicate_key") { if (key_duplicate_recipe(why)) { std::printf("REPRODUCED class=key-matching-duplicate-overwrites %s\n", why.c_str()); return 0; } }
+    else if (job.rfind("join.", 0) == 0) {
+        bool q = job.find("queueing") != std::string::npos || job.find("qport") != std::string::npos, r = job.find("reserving") != std::string::npos || job.find("rport") != std::string::npos,
+             k = job.find("key") != std::string::npos || job.find("kport") != std::string::npos, all = !q && !r && !k;
+        if ((q || all) && queueing_recipe(why)) { std::printf("REPRODUCED class=join-queueing %s\n", why.c_str()); return 0; }
+        if ((r || all) && reserving_recipe(why)) { std::printf("REPRODUCED class=join-reserving %s\n", why.c_str()); return 0; }
+        if ((k || all) && key_matching_recipe(why)) { std::printf("REPRODUCED class=join-key-matching %s\n", why.c_str()); return 0; }
+    }
     else if (job == "sequencer.push.tagmax") { if (sequencer_recipe(why, true)) { std::printf("REPRODUCED class=sequencer-tag-SIZE_MAX %s\n", why.c_str()); return 0; } }
     else { if (sequencer_recipe(why, false)) { std::printf("REPRODUCED class=sequencer-order %s\n", why.c_str()); return 0; } if (limiter_recipe(why)) { std::printf("REPRODUCED class=limiter-threshold %s\n", why.c_str()); return 0; } }
     std::printf("NOT-REPRODUCED\n"); return 0;
